@@ -1,0 +1,106 @@
+//! Verification hooks. Only compiled with the `verif_hooks` feature, which is off by default.
+//!
+//! These hooks allow an external test harness to
+//! - run several real threads one at a time, switching between them at well defined points
+//!   (before each acquisition of the global lock and before each operation on a per-key mutex), and
+//! - take a snapshot of the internal state of a container between any two such points.
+//!
+//! With the feature off, none of this code exists and the library is unchanged.
+
+use std::cell::RefCell;
+use std::future::Future;
+use std::pin::pin;
+use std::sync::Arc;
+use std::sync::atomic::{AtomicBool, Ordering};
+use std::task::{Context, Poll, Wake, Waker};
+
+/// The kind of point a thread has reached
+#[derive(Debug, Clone, Copy, PartialEq, Eq)]
+pub enum Site {
+    /// The thread is about to acquire the global lock protecting the map of entries
+    Global,
+    /// The thread has finished looking up the per-key mutex, released the global lock
+    /// and is about to lock, try to lock or enqueue on the per-key mutex
+    Key,
+}
+
+/// Callbacks a harness installs on a thread to get control at hook points
+pub trait Hook: Send + Sync {
+    /// Called when the current thread reaches a hook point. Returns when the thread may continue.
+    fn at(&self, site: Site);
+    /// Called when the current thread would have to wait for a per-key mutex.
+    /// Must return only after `woken` has been set (it is set by the waker of the pending lock future).
+    fn blocked(&self, woken: &AtomicBool);
+}
+
+thread_local! {
+    static HOOK: RefCell<Option<Arc<dyn Hook>>> = const { RefCell::new(None) };
+}
+
+/// Install (or with `None` remove) the hook of the current thread
+pub fn install(hook: Option<Arc<dyn Hook>>) {
+    HOOK.with(|h| *h.borrow_mut() = hook);
+}
+
+/// Whether the current thread has a hook installed
+pub fn hook_installed() -> bool {
+    HOOK.with(|h| h.borrow().is_some())
+}
+
+fn current() -> Option<Arc<dyn Hook>> {
+    HOOK.with(|h| h.borrow().clone())
+}
+
+/// Report that the current thread has reached a hook point. No-op on threads without a hook.
+#[inline]
+pub fn yield_point(site: Site) {
+    if let Some(hook) = current() {
+        hook.at(site);
+    }
+}
+
+struct FlagWaker {
+    woken: AtomicBool,
+}
+
+impl Wake for FlagWaker {
+    fn wake(self: Arc<Self>) {
+        self.woken.store(true, Ordering::SeqCst);
+    }
+    fn wake_by_ref(self: &Arc<Self>) {
+        self.woken.store(true, Ordering::SeqCst);
+    }
+}
+
+/// Drive `future` to completion on the current thread. Whenever it is pending, the hook's
+/// [Hook::blocked] is called and the future is polled again once that returns.
+/// Must only be called on a thread that has a hook installed.
+pub fn block_on<F: Future>(future: F) -> F::Output {
+    let hook = current().expect("verif::block_on called on a thread without hook");
+    let flag = Arc::new(FlagWaker {
+        woken: AtomicBool::new(false),
+    });
+    let waker = Waker::from(Arc::clone(&flag));
+    let mut cx = Context::from_waker(&waker);
+    let mut future = pin!(future);
+    loop {
+        match future.as_mut().poll(&mut cx) {
+            Poll::Ready(v) => return v,
+            Poll::Pending => {
+                hook.blocked(&flag.woken);
+                flag.woken.store(false, Ordering::SeqCst);
+            }
+        }
+    }
+}
+
+/// One entry of a container, as seen by [verif_snapshot](crate::LockableHashMap::verif_snapshot)
+#[derive(Debug, Clone, PartialEq, Eq)]
+pub struct EntrySnapshot<K, R> {
+    /// The key of the entry
+    pub key: K,
+    /// Number of handles (other than the map itself) that reference the per-key mutex
+    pub num_replicas: usize,
+    /// `None` if the per-key mutex is currently locked (or reserved for a waiter), otherwise the stored value
+    pub unlocked_value: Option<Option<R>>,
+}
